@@ -449,12 +449,27 @@ def r3_callsites(ctx):
                 place = t[1] if t[0] in ("set", "push") else (t[2] if t[0] == "mut" else None)
                 if place is not None and (e6.root_name(place) in gnames or any(e6.contains(place, ("local", g_)) for g_ in gnames)):
                     touched.append(e6.show(place, 2)[:40])
+        # .. nor does the walk itself, other than by handing them to the optimizer: a gradient rescaled / overwritten in a layer's arm is not the sum
+        def walk_effects(effs):
+            for f in effs:
+                if f[0] == "loop":
+                    for x_ in f[3]:
+                        yield from walk_effects(x_[1])
+                else:
+                    yield f
+        for q in L["paths"]:
+            for f in walk_effects(q.eff):
+                if f[0] == "mut" and f[1].endswith(("Optimizer::update", "Feedback::update")):
+                    continue
+                place = f[1] if f[0] in ("set", "push") else (f[2] if f[0] == "mut" else None)
+                if place is not None and (e6.root_name(place) in gnames or any(e6.contains(place, ("local", g_)) for g_ in gnames)):
+                    touched.append("in the walk: " + e6.show(place, 2)[:40])
         entry_ok = True
         for g_ in gnames:
             ev = e6.entry_value(L["paths"][0], ("loopin", g_, lid)) if L["paths"] else None
             if isinstance(ev, tuple) and ev and ev[0] in ("loopout", "upd"):
                 entry_ok = False
-        ctx.check("R03.3", short_name + ":gradients-unmodified", not touched and entry_ok, "gradients-modified-before-step:" + short(",".join(touched), 60), wloc,
+        ctx.check("R03.3", short_name + ":gradients-unmodified", not touched and entry_ok, "gradients-modified-before-step:" + __import__("re").sub(r"#\w+", "", short(",".join(touched), 60)), wloc,
                   "the gradient lists are only read by the optimizer calls", "%s changes the summed gradients (%s) outside the optimizer calls: the step is no longer taken on the sum of the "
                   "per-sample gradients" % (fpath, ", ".join(touched) or "before the walk"))
         okroles = len(roles.get("W", ())) == 1 and len(roles.get("B", ())) == 1 and roles["W"] != roles["B"]
